@@ -16,6 +16,22 @@ TL_TARGETS = ["traffic_light", "green", "red", "yellow", "green_left", "red_stra
 EPS = 1e-3
 
 
+# original category names (as a dataset would carry them) and attributes per label: ground truths keep their original
+# name / attributes in Label.name / Label.attributes, estimates are usually named after their label
+NAMES = {
+    "car": ["car", "vehicle.car", "vehicle.police"],
+    "bicycle": ["bicycle", "vehicle.bicycle"],
+    "pedestrian": ["pedestrian", "pedestrian.adult", "pedestrian.child"],
+    "truck": ["truck", "vehicle.truck"],
+    "bus": ["bus", "vehicle.bus"],
+    "motorbike": ["motorbike", "vehicle.motorcycle"],
+    "unknown": ["unknown", "movable_object.barrier"],
+    "animal": ["animal"],
+    "false_positive": ["false_positive"],
+}
+ATTRS = ["cycle_state.without_rider", "cycle_state.with_rider", "vehicle_state.parked", "pedestrian_state.sitting"]
+
+
 def fl(lo, hi):
     return st.floats(lo, hi, allow_nan=False, allow_infinity=False, width=64)
 
@@ -105,6 +121,9 @@ def scenes3d(
             "uuid": f"g{i}",
             "pts": draw(st.integers(0, 40)),
         }
+        if lab in NAMES and draw(st.integers(0, 2)) == 0:
+            o["name"] = draw(st.sampled_from(NAMES[lab]))
+            o["attrs"] = draw(st.lists(st.sampled_from(ATTRS), max_size=2, unique=True))
         gt.append(o)
     n_est = draw(counts(min_est, max_est))
     est = []
@@ -127,7 +146,7 @@ def scenes3d(
                 r = draw(fl(0.0, 0.3))
             else:
                 t = draw(st.sampled_from(list(thresholds)))
-                r = t * draw(st.sampled_from([0.5, 0.8, 0.95, 1.05, 1.2, 1.6]))
+                r = t * draw(st.sampled_from([0.55, 0.8, 0.95, 1.05, 1.2, 1.6]))
             if ties:
                 r = draw(st.sampled_from([0.25, 0.5, 1.0]))
                 ang = draw(st.sampled_from([0.0, PI / 2, PI, -PI / 2]))
@@ -158,7 +177,8 @@ def scenes3d(
             "qs": draw(qsigns()),
             "size": size,
             "label": lab,
-            "score": draw(st.sampled_from(conf_pool)) if ties else draw(fl(0.01, 0.99)),
+            # distinct confidences by construction unless ties are asked for (equal confidences are a ranking tie)
+            "score": draw(st.sampled_from(conf_pool)) if ties else min(0.9999, draw(fl(0.01, 0.99)) + j * 1e-5),
             "uuid": f"e{j}",
         }
         if kind != "clutter":
